@@ -23,19 +23,20 @@ def _imports():
 class Env:
     """Graph under construction + harness-side expectations."""
 
-    def __init__(self, choices, fault):
+    def __init__(self, choices, fault, offset=0):
         from lib.detloop import DetLoop
         from lib.stubs import StubContext, new_workflow
 
         self.ctx = StubContext()
         self.wf = new_workflow(self.ctx)
-        self.loop = DetLoop(choices=choices)
+        self.loop = DetLoop(choices=choices, offset=offset)
         self.fault = fault  # index of the transformer/command that fails (-1: none)
         self.nfaultable = 0
         self.consumed = {}  # id(step) -> list of (output token, [input tokens]) recorded by harness steps
         self.inputs = []  # (port, [tokens])
         self.gates = []
         self.triggered = False  # set when the injected fault actually fired
+        self.restore = []  # (module, attribute, original) patched by a graph builder
 
     def faulty(self):
         k = self.nfaultable
@@ -190,9 +191,14 @@ def g_two_outputs(env, v):
     return {"ra": v[0] + 1, "rb": v[1] + 5}
 
 
-def g_exec(env, v, n, slots, order):
+def g_exec(env, v, n, slots, order, gated=True, hw=False, delay=1):
     """scatter -> schedule -> execute (real DefaultScheduler, stub connector with `slots`) -> gather.
-    order: symbolic ints choosing which pending job command completes next."""
+    order: symbolic ints choosing which pending job command completes next.
+    gated=False: commands complete (or fail) immediately, without waiting for the harness, so a
+    failure can hit siblings that have not started yet or are in their final notification.
+    hw=True: the location exposes hardware (8 cores) instead of slots, every job requires 1 core, and
+    measuring the storage usage at release time takes `delay` scheduling steps (yields inside the
+    scheduler's critical section; solver-chosen), so notifications of different jobs contend for the scheduler lock."""
     Status, Token, Transformer, ListToken, TerminationToken = _imports()
     from harness.sched_lib import StubConnector, StubDeploymentManager
     from streamflow.core.config import BindingConfig
@@ -203,7 +209,24 @@ def g_exec(env, v, n, slots, order):
     from streamflow.workflow.step import ExecuteStep, GatherStep, ScatterStep, ScheduleStep
 
     wf, ctx = env.wf, env.ctx
-    locs = {"l0": AvailableLocation(name="l0", deployment="d", hostname="h", slots=slots)}
+    hreq = None
+    if hw:
+        from harness.sched_lib import Req, Usage
+        from streamflow.core.scheduling import Hardware, Storage
+        import streamflow.scheduling.scheduler as sched_mod
+
+        locs = {"l0": AvailableLocation(name="l0", deployment="d", hostname="h", hardware=Hardware(cores=8, memory=8, storage={"/": Storage("/", 100)}))}
+        hreq = Req(1, 0, 0, "/")
+
+        async def _usages(context, location, hardware):
+            for _ in range(delay):  # measuring takes a while: other tasks run meanwhile
+                await asyncio.sleep(0)
+            return {k: Usage(0) for k in hardware.storage.keys()}
+
+        env.restore.append((sched_mod.remotepath, "get_storage_usages", sched_mod.remotepath.get_storage_usages))
+        sched_mod.remotepath.get_storage_usages = _usages
+    else:
+        locs = {"l0": AvailableLocation(name="l0", deployment="d", hostname="h", slots=slots)}
     ctx.deployment_manager = StubDeploymentManager({"d": StubConnector("d", locs)})
     ctx.scheduler = DefaultScheduler(ctx)
 
@@ -225,9 +248,10 @@ def g_exec(env, v, n, slots, order):
 
     class Cmd(Command):
         async def execute(self, job):
-            g = asyncio.get_running_loop().create_future()
-            gates.append((job.name, g))
-            await g
+            if gated:
+                g = asyncio.get_running_loop().create_future()
+                gates.append((job.name, g))
+                await g
             x = job.inputs["x"].value
             if fails and job.name.endswith(".0"):
                 env.triggered = True
@@ -239,7 +263,7 @@ def g_exec(env, v, n, slots, order):
     sc.add_input_port("x", p_in)
     sc.add_output_port("x", p_el)
     binding = BindingConfig(targets=[Target(deployment=DeploymentConfig(name="d", type="stub", config={}), workdir="/wd")])
-    ss = wf.create_step(cls=Sched, name="/ex__schedule__", job_prefix="/ex", connector_ports={}, binding_config=binding)
+    ss = wf.create_step(cls=Sched, name="/ex__schedule__", job_prefix="/ex", connector_ports={}, binding_config=binding, hardware_requirement=hreq)
     ss.add_input_port("x", p_el)
     ex = wf.create_step(cls=ExecuteStep, name="/ex", job_port=ss.get_output_port())
     ex.command = Cmd(ex)
@@ -255,10 +279,82 @@ def g_exec(env, v, n, slots, order):
     return {"result": [x * 3 for x in vals]}
 
 
+def g_join2(env, v, n, perm):
+    """a two-input transformer whose ports receive the same tags in DIFFERENT orders (two upstream
+    scattered branches finishing out of order): port a in tag order, port b in the order `perm`."""
+    Status, Token, Transformer, ListToken, TerminationToken = _imports()
+    from streamflow.workflow.step import GatherStep
+
+    wf = env.wf
+    pa, pb, ps, psize, pout = (wf.create_port(name=x) for x in ("a", "b", "s", "size", "out"))
+    t = _mk_transformer(env, "/sum", lambda x, y: x + y, ["a", "b"])
+    t.add_input_port("a", pa)
+    t.add_input_port("b", pb)
+    t.add_output_port("out", ps)
+    ga = wf.create_step(cls=GatherStep, name="/ga", size_port=psize)
+    ga.add_input_port("x", ps)
+    ga.add_output_port("x", pout)
+    wf.output_ports["result"] = pout.name
+    A = [v[i] for i in range(n)]
+    B = [v[3 + i] for i in range(n)]
+    ta = [Token(value=A[i], tag="0." + str(i)) for i in range(n)]
+    order = []
+    for k in range(n):
+        for i in range(n):
+            if perm[k] == i and i not in order:
+                order.append(i)
+    for i in range(n):
+        if i not in order:
+            order.append(i)
+    tb = [Token(value=B[i], tag="0." + str(i)) for i in order]
+    env.inputs.append((pa, ta))
+    env.inputs.append((pb, tb))
+    env.inputs.append((psize, [Token(value=n, tag="0")]))
+    return {"result": [x + y for x, y in zip(A, B)]}
+
+
+def g_bcast(env, v, n):
+    """a scattered input x joined (dot product) with TWO non-scattered inputs y, z (tag '0'),
+    as the CWL translator builds a step with one scatter input and two plain inputs."""
+    Status, Token, Transformer, ListToken, TerminationToken = _imports()
+    from streamflow.workflow.combinator import DotProductCombinator
+    from streamflow.workflow.step import CombinatorStep, GatherStep, ScatterStep
+
+    wf = env.wf
+    px, py, pz, ex, cx, cy, cz, ps, pout = (wf.create_port(name=q) for q in ("x", "y", "z", "ex", "cx", "cy", "cz", "s", "out"))
+    sx = wf.create_step(cls=ScatterStep, name="/sx")
+    sx.add_input_port("x", px)
+    sx.add_output_port("x", ex)
+    comb = DotProductCombinator(name="dot", workflow=wf)
+    for it in ("x", "y", "z"):
+        comb.add_item(it)
+    cs = wf.create_step(cls=CombinatorStep, name="/comb", combinator=comb)
+    cs.add_input_port("x", ex)
+    cs.add_input_port("y", py)
+    cs.add_input_port("z", pz)
+    cs.add_output_port("x", cx)
+    cs.add_output_port("y", cy)
+    cs.add_output_port("z", cz)
+    t = _mk_transformer(env, "/sum", lambda a, b, c: a + b + c, ["x", "y", "z"])
+    t.add_input_port("x", cx)
+    t.add_input_port("y", cy)
+    t.add_input_port("z", cz)
+    t.add_output_port("out", ps)
+    ga = wf.create_step(cls=GatherStep, name="/ga", size_port=sx.get_size_port())
+    ga.add_input_port("x", ps)
+    ga.add_output_port("x", pout)
+    wf.output_ports["result"] = pout.name
+    X = [v[i] for i in range(n)]
+    env.inputs.append((px, [ListToken(value=[Token(value=q) for q in X], tag="0")]))
+    env.inputs.append((py, [Token(value=v[3], tag="0")]))
+    env.inputs.append((pz, [Token(value=v[4], tag="0")]))
+    return {"result": [q + v[3] + v[4] for q in X]}
+
+
 # ---------------------------------------------------------------- driver
 
 
-def run_graph(build, choices, fault, oracle, baseline_choices=None):
+def run_graph(build, choices, fault, oracle, offset=0):
     """build(env) -> expected outputs. oracle in {"terminate", "deterministic", "provenance"}.
     Returns True iff the property holds on this path."""
     from lib.detloop import Deadlock, Livelock, Prune
@@ -289,7 +385,7 @@ def run_graph(build, choices, fault, oracle, baseline_choices=None):
     orig_time = ex_mod.time
     ex_mod.time = _Clock
     try:
-        env = Env(choices, fault)
+        env = Env(choices, fault, offset)
         try:
             with env.loop as loop:
                 expected = build(env)
@@ -399,14 +495,21 @@ def run_graph(build, choices, fault, oracle, baseline_choices=None):
     finally:
         cu.random_name = orig_rn
         ex_mod.time = orig_time
+        try:
+            for mod_, attr, orig in env.restore:
+                setattr(mod_, attr, orig)
+        except NameError:
+            pass
 
 
 def _same_tag_inputs(step, tag):
+    from streamflow.workflow.step import CombinatorStep
     from streamflow.workflow.token import TerminationToken
 
+    bcast = isinstance(step, CombinatorStep)  # a combinator also consumes tokens of an ancestor tag (broadcast)
     want = []
     for n, p in step.get_input_ports().items():
-        want += [t for t in p.token_list if not isinstance(t, TerminationToken) and t.tag == tag]
+        want += [t for t in p.token_list if not isinstance(t, TerminationToken) and (t.tag == tag or (bcast and tag.startswith(t.tag + ".")))]
     return sorted(t.persistent_id for t in want)
 
 
